@@ -22,7 +22,9 @@ def vsub (a b : List Float) : List Float := List.zipWith (· - ·) a b
     * `student nu`             : `-(ν+1)/2 Σ ln(1 + x²/ν)`
     * `quartic`                : `-Σ x⁴/4`
     * `halfline rate`          : `-rate·x₀ - ½ Σ_{i≥1} x_i²` for `x₀ > 0`, `-inf` otherwise (boundary; C14)
-    * `logbox`                 : `Σ ln(x_i) + ln(1 - x_i)` on (0,1)^d, NaN outside (C14) -/
+    * `logbox`                 : `Σ ln(x_i) + ln(1 - x_i)` on (0,1)^d, NaN outside (C14)
+    * `sqrtgamma rate`         : `Σ ln(√x_i) - rate·x_i` on x > 0, value and gradient NaN outside (C04/C14: the halving loop of
+                                 `find_reasonable_epsilon`) -/
 def parseTarget (ty : String) (ws : List String) : Option TargetF :=
   let nums (l : List String) : Option (List Float) :=
     if ty = "f32" then (parseF32s l).map fun v => v.map Float32.toFloat else parseF64s l
@@ -61,6 +63,14 @@ def parseTarget (ty : String) (ws : List String) : Option TargetF :=
     | _ => none
   | ["logbox"] => some ⟨fun x => (x.map fun t => Float.log t + Float.log (1 - t)).foldl (· + ·) 0,
                         fun x => x.map fun t => 1 / t - 1 / (1 - t)⟩
+  | ["sqrtgamma", rate] =>
+    match nums [rate] with
+    | some [rate] =>
+      let nan : Float := 0.0 / 0.0
+      some ⟨fun x => (x.map fun t => Float.log (Float.sqrt t) - rate * t).foldl (· + ·) 0,
+            -- autodiff through `ln ∘ sqrt`: `(1/√t)·(1/(2√t))`, NaN for `t < 0`
+            fun x => x.map fun t => (if t < 0 then nan else 1 / Float.sqrt t / (2 * Float.sqrt t)) - rate⟩
+    | _ => none
   | _ => none
 
 end MiniMcmcVerif.Driver
